@@ -15,6 +15,17 @@ func recordNext(m *Model, arg int) Op {
 		op.Exp = &r
 		op.ExpStore = canonStore(m.store)
 	}
+	if gStats != nil {
+		// abstract state of the protocol: host view x current node x continuation depth x pending kind x response kind
+		pend := ""
+		if m.pending != nil {
+			pend = "cmd"
+			if m.pending.IsWait {
+				pend = "wait"
+			}
+		}
+		gStats.distinct("abstract_states", hashStr(m.HostState(), m.cur, string(rune('0'+len(m.stack))), pend, r.Kind))
+	}
 	if r.Kind == rWaiting && m.asyncImmediate {
 		op.MayComplete = true
 	}
